@@ -52,6 +52,7 @@ Definition err_ok (e : option err) : Prop :=
   match e with
   | Some ErrNullDeref | Some ErrBadRange => False
   | Some ErrDangling => cf_hist_guard cfg = false   (* only the source shape without the reset can reach it *)
+  | Some ErrRecursion => cf_kb_guard cfg = false    (* only a key binder that replays without redirecting_ *)
   | _ => True
   end.
 
@@ -696,9 +697,10 @@ Proof. intros Hs He (Hc & Hf). split; cbn; [apply (chain_same _ _ Hs He Hc) | ap
 
 (** an error other than the two excluded kinds; a fuel error only when the geometric invariant is off *)
 Definition err_allowed (e : err) : Prop :=
-  e = ErrSubstr \/ (e = ErrDangling /\ cf_hist_guard cfg = false) \/ (e = ErrFuel /\ ~ GE).
+  e = ErrSubstr \/ (e = ErrDangling /\ cf_hist_guard cfg = false) \/ (e = ErrRecursion /\ cf_kb_guard cfg = false) \/
+  (e = ErrFuel /\ ~ GE).
 Lemma err_ok_fail c e : err_allowed e -> err_ok (cx_err c) -> err_ok (cx_err (ctx_fail c e)).
-Proof. intros He H. cbn. destruct (cx_err c); [exact H|]. destruct He as [-> | [(-> & Hg) | (-> & _)]]; [exact I | exact Hg | exact I]. Qed.
+Proof. intros He H. cbn. destruct (cx_err c); [exact H|]. destruct He as [-> | [(-> & Hg) | [(-> & Hg) | (-> & _)]]]; [exact I | exact Hg | exact Hg | exact I]. Qed.
 
 (** with the reset in the raw branch [last] never ages, so it is never read after its record was popped *)
 Lemma hist_step_guarded input a g :
@@ -735,7 +737,7 @@ Proof.
   intros He ((H1 & H2 & H3 & H4 & H5 & Hg) & H6). split; [|exact H6].
   split; [exact H1|]. split; [exact H2|]. split; [exact H3|]. split; [exact H4|].
   split; [apply err_ok_fail; assumption|]. intros G. destruct (Hg G) as (Hgeo & Hne). split; [exact Hgeo|].
-  cbn. destruct (cx_err c) as [x|]; [exact Hne|]. destruct He as [-> | [(-> & _) | (_ & Hn)]]; [discriminate | discriminate | contradiction].
+  cbn. destruct (cx_err c) as [x|]; [exact Hne|]. destruct He as [-> | [(-> & _) | [(-> & _) | (_ & Hn)]]]; [discriminate | discriminate | discriminate | contradiction].
 Qed.
 Lemma cinv_check c b e : (b = false -> err_allowed e) -> cinv c -> cinv (ctx_check c b e).
 Proof. intros He H. unfold ctx_check. destruct b; [exact H | apply cinv_err; auto]. Qed.
@@ -792,7 +794,7 @@ Proof.
   apply cinv_check.
   { intros ->. left; reflexivity. }
   apply cinv_check.
-  { intros ->. right; right. split; [reflexivity|]. intros G. destruct (G2 G) as (_ & X). discriminate. }
+  { intros ->. right; right; right. split; [reflexivity|]. intros G. destruct (G2 G) as (_ & X). discriminate. }
   split; [split; [exact Hc|]; split; [exact H3|]; split; [exact Hi|]; split; [|split; [exact He|]]|];
     cbn [ctx_with_comp cx_comp cx_input cx_err cx_caret]; rewrite ?E3, ?Ci.
   - rewrite <- Ci. exact Hi2.
@@ -1062,7 +1064,7 @@ Qed.
 Lemma on_select_inv s : sinv s -> sg_segs (cx_comp (st_ctx s)) <> [] -> sinv (on_select cfg translate s).
 Proof.
   intros H Hne. unfold on_select.
-  match goal with |- sinv (mkSt (st_ctx ?x) _ _ _ _) => assert (Hx : sinv x); [|exact Hx] end.
+  match goal with |- sinv (mkSt (st_ctx ?x) _ _ _ _ _) => assert (Hx : sinv x); [|exact Hx] end.
   destruct (sg_segs (cx_comp (st_ctx s))) as [|g0 r] eqn:E; [congruence|].
   pose proof (seg_inv_close g0 (back_inv _ _ _ H E)) as Hg.
   assert (Hcg : forall x, s_start x = s_start (seg_close g0) -> s_end x = s_end (seg_close g0) ->
@@ -1516,11 +1518,52 @@ Proof.
   - apply pair_punct_inv, H1.
 Qed.
 
-Lemma proc_of_inv i s k : sinv s -> sinv (fst (proc_of cfg translate i s k)).
+(** ---- KeyBinder ---- *)
+Lemma reinterpret_paging_key_inv s k : sinv s -> sinv (fst (reinterpret_paging_key cfg translate s k)).
 Proof.
-  intros H. destruct i; cbn [proc_of];
+  intros H. unfold reinterpret_paging_key. destruct (k_release k); [exact H|]. cbv zeta.
+  match goal with |- sinv (fst (if ?b then _ else _)) => destruct b end; [exact H|].
+  match goal with |- sinv (fst (if ?b then _ else _)) => destruct b end; [|exact H].
+  destruct (cx_input (st_ctx s)) as [|b0 r0] eqn:Ei; [exact H|].
+  match goal with |- sinv (fst (if ?b then _ else _)) => destruct b end; [exact H|].
+  cbn [fst]. unfold sinv. cbn [st_ctx on_ctx st_with_ctx]. apply push_input_inv; [exact H|].
+  apply (IP_key 46). lia.
+Qed.
+
+Lemma kb_perform_action_inv s a : sinv s -> sinv (kb_perform_action cfg translate s a).
+Proof.
+  intros H. destruct a; cbn [kb_perform_action]; try exact H; apply on_ctx_inv; try exact H; intros c Hc; apply set_option_inv, Hc.
+Qed.
+
+Lemma fold_replay_inv (f : state -> key -> state * bool) keys :
+  (forall x tk, sinv x -> sinv (fst (f x tk))) -> forall s, sinv s -> sinv (fold_left (fun x tk => fst (f x tk)) keys s).
+Proof. intros Hf. induction keys as [|tk r IH]; intros s H; [exact H|]. cbn [fold_left]. apply IH, Hf, H. Qed.
+
+Lemma key_binder_process_inv R red s k :
+  (forall f, R = Some f -> forall x tk, sinv x -> sinv (fst (f x tk))) ->
+  (R = None -> red = true \/ cf_kb_guard cfg = false) ->
+  sinv s -> sinv (fst (key_binder_process cfg translate R red s k)).
+Proof.
+  intros HR HN H. unfold key_binder_process.
+  destruct (red || match cf_bindings cfg with [] => true | _ => false end) eqn:Er; [exact H|].
+  apply orb_false_iff in Er as (Er & _).
+  pose proof (reinterpret_paging_key_inv s k H) as H1.
+  destruct (reinterpret_paging_key cfg translate s k) as [s1 re]. cbn [fst] in H1. destruct re; [exact H1|].
+  destruct (find _ (kb_vector cfg k)) as [b|]; [|exact H1].
+  destruct (kb_act b) as [keys | o | o | o | sc] eqn:Ea; cbn [fst];
+    try (rewrite <- Ea; apply kb_perform_action_inv, H1).
+  destruct keys as [|tk keys]; [exact H1|]. destruct R as [f|]; cbn [fst].
+  - apply fold_replay_inv; [apply (HR f eq_refl) | exact H1].
+  - apply on_ctx_inv; [exact H1|]. intros c Hc. apply cinv_err; [|exact Hc]. right; right; left. split; [reflexivity|].
+    destruct (HN eq_refl) as [X | X]; [congruence | exact X].
+Qed.
+
+Lemma proc_of_inv kb i s k :
+  (forall x, sinv x -> sinv (fst (kb x k))) -> sinv s -> sinv (fst (proc_of cfg translate kb i s k)).
+Proof.
+  intros Hkb H. destruct i; cbn [proc_of];
     [apply speller_process_inv | apply punctuator_process_inv | apply selector_process_inv
-     | apply navigator_process_inv | apply editor_process_inv]; exact H.
+     | apply navigator_process_inv | apply editor_process_inv | apply Hkb]; exact H.
 Qed.
 
 Lemma run_processors_inv ps k :
@@ -1532,13 +1575,14 @@ Proof.
   destruct ret; cbn [fst]; try exact H1. apply IH; [|exact H1]. intros q Hq. apply Hp. right; exact Hq.
 Qed.
 
-Lemma process_key_inv s k : sinv s -> sinv (fst (process_key cfg translate s k)).
+Lemma process_key_gen_inv kb s k :
+  (forall x, sinv x -> sinv (fst (kb x k))) -> sinv s -> sinv (fst (process_key_gen cfg translate kb s k)).
 Proof.
-  intros H. unfold process_key.
-  assert (H1 : sinv (fst (run_processors (processors cfg translate) s k))).
+  intros Hkb H. unfold process_key_gen.
+  assert (H1 : sinv (fst (run_processors (processors cfg translate kb) s k))).
   { apply run_processors_inv; [|exact H]. intros p Hp s0 H0. unfold processors in Hp. apply in_map_iff in Hp as (i & <- & _).
-    apply proc_of_inv, H0. }
-  destruct (run_processors (processors cfg translate) s k) as [s1 ret]. cbn [fst] in H1.
+    apply proc_of_inv; assumption. }
+  destruct (run_processors (processors cfg translate kb) s k) as [s1 ret]. cbn [fst] in H1.
   assert (H2 : sinv (on_ctx s1 (fun c => ctx_with_hist c (hist_push_key (cx_hist c) k)))).
   { apply on_ctx_inv; [exact H1|]. intros c Hc. apply cinv_hist, Hc. }
   pose proof (shape_process_inv _ k H2) as Hs.
@@ -1546,6 +1590,23 @@ Proof.
     cbv zeta; destruct (shape_process (on_ctx s1 (fun c => ctx_with_hist c (hist_push_key (cx_hist c) k))) k) as [sx rx];
     destruct rx; exact Hs.
 Qed.
+
+(** the re-entered ProcessKey: with the flag set during the replay (or when the source does not
+    set it: the error is then an admitted one) every nesting depth keeps the invariant *)
+Lemma process_key_n_inv fuel : forall red s k,
+  (cf_kb_guard cfg = true -> red = true \/ fuel <> 0) ->
+  sinv s -> sinv (fst (process_key_n cfg translate fuel red s k)).
+Proof.
+  induction fuel as [|f IH]; intros red s k Hg H; cbn [process_key_n]; apply process_key_gen_inv; try exact H; intros x Hx;
+    apply key_binder_process_inv; try exact Hx.
+  - intros f0 X; discriminate X.
+  - intros _. destruct (cf_kb_guard cfg) eqn:Eg; [|right; reflexivity]. destruct (Hg eq_refl) as [X | X]; [left; exact X | congruence].
+  - intros f0 X. injection X as <-. intros y tk Hy. apply IH; [|exact Hy]. intros Eg. left. exact Eg.
+  - intros X; discriminate X.
+Qed.
+
+Lemma process_key_inv s k : sinv s -> sinv (fst (process_key cfg translate s k)).
+Proof. intros H. unfold process_key. apply process_key_n_inv; [|exact H]. intros _. right. discriminate. Qed.
 
 (** ---- the API layer ---- *)
 Lemma on_current_page_inv s i verb :
@@ -1775,6 +1836,33 @@ Theorem no_null_no_bad_range_gen ops : Forall op_ok ops -> Forall obs_ok (snd (r
 Proof. apply run_from_obs_ok, init_inv. Qed.
 
 
+(** every crash an observation reports is of a kind the invariant admits *)
+Definition obs_err_ok (o : obs) : Prop := match o with ObsCrash e => err_ok (Some e) | Obs _ _ => True end.
+
+Lemma step_obs_err_ok s o : sinv s -> op_ok o -> obs_err_ok (snd (step cfg translate s o)).
+Proof.
+  intros H Ho. pose proof (step_inv s o H Ho) as Hi. pose proof (sinv_err_ok s H) as He.
+  unfold step in *. destruct (cx_err (st_ctx s)) as [e|] eqn:Ee.
+  - cbn [snd obs_err_ok]. exact He.
+  - destruct (exec cfg translate s o) as [s1 r]. destruct (view_of cfg s1) as [v ve].
+    pose proof (sinv_err_ok _ Hi) as He2.
+    destruct (cx_err (st_ctx (match ve with Some e => st_with_ctx s1 (ctx_fail (st_ctx s1) e) | None => s1 end))) as [e|] eqn:E2;
+      cbn [fst snd obs_err_ok] in *; [|exact I]. rewrite E2 in He2. exact He2.
+Qed.
+
+Lemma run_from_obs_err_ok ops : forall s, sinv s -> Forall op_ok ops -> Forall obs_err_ok (snd (run_from cfg translate s ops)).
+Proof.
+  induction ops as [|o r IH]; intros s H Hops; [constructor|]. cbn [run_from].
+  inversion Hops as [|? ? Ho Hr]; subst.
+  pose proof (step_obs_err_ok s o H Ho) as Hw. pose proof (step_inv s o H Ho) as Hi.
+  destruct (step cfg translate s o) as [s1 ob]. cbn [fst snd] in *.
+  specialize (IH s1 Hi Hr). destruct (run_from cfg translate s1 r) as [s2 obs]. cbn [snd] in *.
+  constructor; assumption.
+Qed.
+
+Theorem crash_kinds_gen ops : Forall op_ok ops -> Forall obs_err_ok (snd (run cfg translate ops)).
+Proof. apply run_from_obs_err_ok, init_inv. Qed.
+
 (** ---- the UTF-8 clause: with [IP] = ASCII and [MP] = clean candidates the
     reported preedit positions are character boundaries ---- *)
 Section Utf8.
@@ -1871,6 +1959,30 @@ Proof.
   apply Forall_forall. intros o _. destruct o; exact I.
 Qed.
 
+(** which kinds of crash a history can report at all: never a null dereference or an invalid page
+    range; the commit history's dangling [last] and the key binder's unbounded re-entry only for
+    the source shapes without the respective guard *)
+Definition crash_kind_ok (cfg : config) (o : obs) : Prop :=
+  match o with
+  | ObsCrash ErrNullDeref | ObsCrash ErrBadRange => False
+  | ObsCrash ErrDangling => cf_hist_guard cfg = false
+  | ObsCrash ErrRecursion => cf_kb_guard cfg = false
+  | _ => True
+  end.
+
+Theorem crash_kinds (cfg : config) (translate : bytes -> seginfo -> list cand) :
+  (1 <= cf_page_size cfg)%Z ->
+  (forall i s, (Z.of_nat (length (translate i s)) + cf_page_size cfg < 2147483648)%Z) ->
+  cf_del_checked cfg = true ->
+  forall ops, Forall (crash_kind_ok cfg) (snd (run cfg translate ops)).
+Proof.
+  intros Hps Hlen Hdel ops.
+  assert (H : Forall (obs_err_ok cfg) (snd (run cfg translate ops))).
+  { eapply crash_kinds_gen with (MP := fun _ _ => True) (IP := fun _ => True) (GE := False); eauto; try tauto.
+    apply Forall_forall. intros o _. destruct o; exact I. }
+  eapply Forall_impl; [|exact H]. intros o Ho. destruct o as [e|]; [|exact I]. destruct e; exact Ho.
+Qed.
+
 (** with candidates that end at or after the start of their segment: over all
     histories the only undefined operation the modelled core can still reach is
     std::string::substr with pos > size (ErrSubstr) – no null dereference, no
@@ -1886,10 +1998,11 @@ Theorem only_substr_can_fail (cfg : config) (translate : bytes -> seginfo -> lis
   (forall i s, (Z.of_nat (length (translate i s)) + cf_page_size cfg < 2147483648)%Z) ->
   cf_del_checked cfg = true ->
   cf_hist_guard cfg = true ->
+  cf_kb_guard cfg = true ->
   (forall i s c, In c (translate i s) -> si_start s <= c_end c) ->
   forall ops, Forall obs_only_substr (snd (run cfg translate ops)).
 Proof.
-  intros Hps Hlen Hdel Hhg Hce ops.
+  intros Hps Hlen Hdel Hhg Hkg Hce ops.
   set (MPg := fun (st : nat) (m : menu) => forall c, In c m -> st <= c_end c).
   assert (Hops : Forall (op_ok (fun _ => True)) ops) by (apply Forall_forall; intros o _; destruct o; exact I).
   assert (Hrun : forall l s, sinv cfg MPg (fun _ => True) True s ->
